@@ -68,7 +68,72 @@ class _World:
             self.failure = Violation(cls, msg)
 
 
+def run_expectation_values(tape, ctx: Ctx) -> None:
+    """Sampler.sample_expectation_values fans a list of observables and a sweep out into measurement jobs and
+    routes the measured means back: entry [i][j] of the result belongs to sweep point i and observable j,
+    also when two observables (or two sweep points) are equal or share a term.  The circuit prepares a
+    computational basis state chosen by the sweep, so every expectation value is exactly +-1 or a sum of such."""
+    ctx.workload = "W2-expectation-values"
+    n = 1 + tape.draw(3, "n-qubits")
+    qs = cirq.LineQubit.range(n)
+    syms = [sympy.Symbol(f"a{i}") for i in range(n)]
+    circuit = cirq.Circuit((cirq.X(q) ** s) for q, s in zip(qs, syms))
+    n_points = 1 + tape.draw(3, "n-points")
+    points = [tuple(tape.draw(2, "bit") for _ in range(n)) for _ in range(n_points)]
+    if n_points >= 2 and tape.chance(1, 2, "equal-points?"):
+        points[-1] = points[0]
+        ctx.probe("w2:equal-sweep-points")
+    sweep = cirq.ListSweep([cirq.ParamResolver({f"a{i}": b for i, b in enumerate(p)}) for p in points])
+    n_obs = 1 + tape.draw(3, "n-observables")
+    obs = []
+    for _ in range(n_obs):
+        terms = []
+        for _t in range(1 + tape.draw(2, "n-terms")):
+            sub = tuple([q for q in qs if tape.chance(1, 2, "in-term?")] or [qs[0]])
+            if any(sub == s2 for _c, s2 in terms):
+                continue          # one Pauli string once per observable (coefficients could cancel to nothing)
+            terms.append(([1, 2, -1][tape.draw(3, "coeff")], sub))
+        obs.append(terms)
+    if n_obs >= 2 and tape.chance(1, 2, "equal-observables?"):
+        obs[-1] = list(obs[0])
+        ctx.probe("w2:equal-observables")
+
+    def pauli_sum(terms):
+        total = 0
+        for c, sub in terms:
+            total = total + c * cirq.PauliString({q: cirq.Z for q in sub})
+        return total
+
+    def exact(terms, p):
+        val = 0.0
+        merged = {}
+        for c, sub in terms:
+            merged[sub] = merged.get(sub, 0) + c       # equal Pauli strings inside one sum combine
+        for sub, c in merged.items():
+            val += c * (-1) ** sum(p[qs.index(q)] for q in sub)
+        return val
+
+    ctx.decide("cfg", "expectation-values", n, points, [[(c, [q.x for q in sub]) for c, sub in t] for t in obs])
+    sampler = cirq.Simulator(seed=0)
+    got = sampler.sample_expectation_values(circuit, [pauli_sum(t) for t in obs], num_samples=4, params=sweep)
+    for i, p in enumerate(points):
+        for j, t in enumerate(obs):
+            want = exact(t, p)
+            if abs(got[i][j] - want) > 1e-9:
+                raise Violation(f"{P}-WRONG-RESULT",
+                                f"sample_expectation_values: entry [{i}][{j}] (sweep point {p}, observable "
+                                f"{pauli_sum(t)}) is {got[i][j]}, the state is a basis state and the value is {want}; "
+                                f"whole result {got}, points {points}",
+                                fingerprint=f"{P}-WRONG-RESULT:sample_expectation_values-routes-by-value")
+    ctx.nontrivial = n_points * n_obs >= 2
+    ctx.state(("w2-ev", n, n_points, n_obs))
+    ctx.sample = {"workload": "W2", "variant": "Sampler.sample_expectation_values", "points": points,
+                  "observables": [str(pauli_sum(t)) for t in obs]}
+
+
 def run(tape, ctx: Ctx) -> None:
+    if tape.chance(1, 8, "expectation-values?"):
+        return run_expectation_values(tape, ctx)
     ctx.workload = "W2-fanout"
     variant = tape.weighted([2, 3], "variant")          # 0 base Sampler, 1 ProcessorSampler
     n_prog = 1 + tape.draw(7, "n-programs")
